@@ -387,6 +387,86 @@ impl VLoadBalancer {
   }
 }
 
+// --- OutgoingMessageOrchestrator with scripted peers (readiness sweep of PUSH/DEALER) ---------------
+
+#[derive(Debug)]
+struct ScriptedPeer {
+  room: std::sync::atomic::AtomicBool,
+  delivered: std::sync::atomic::AtomicUsize,
+  changed: tokio::sync::Notify,
+}
+
+#[async_trait::async_trait]
+impl crate::socket::connection_iface::ISocketConnection for ScriptedPeer {
+  async fn send_multipart(&self, _msgs: FrameBatch) -> Result<(), ZmqError> {
+    use std::sync::atomic::Ordering::SeqCst;
+    loop {
+      let changed = self.changed.notified();
+      if self.room.load(SeqCst) {
+        self.delivered.fetch_add(1, SeqCst);
+        return Ok(());
+      }
+      changed.await;
+    }
+  }
+  fn try_send_multipart_owned_sync(&self, msgs: FrameBatch) -> Result<(), (FrameBatch, ZmqError)> {
+    use std::sync::atomic::Ordering::SeqCst;
+    if self.room.load(SeqCst) {
+      self.delivered.fetch_add(1, SeqCst);
+      Ok(())
+    } else {
+      Err((msgs, ZmqError::ResourceLimitReached))
+    }
+  }
+  async fn close_connection(&self) -> Result<(), ZmqError> {
+    Ok(())
+  }
+  fn as_any(&self) -> &dyn std::any::Any {
+    self
+  }
+}
+
+/// `OutgoingMessageOrchestrator` over peers whose "queue has room" flag the caller controls.
+pub struct VOrchestrator {
+  inner: crate::socket::patterns::outgoing_orchestrator::OutgoingMessageOrchestrator,
+  peers: parking_lot::Mutex<Vec<Arc<ScriptedPeer>>>,
+}
+
+impl VOrchestrator {
+  pub fn new() -> Self {
+    Self {
+      inner: crate::socket::patterns::outgoing_orchestrator::OutgoingMessageOrchestrator::new(),
+      peers: parking_lot::Mutex::new(Vec::new()),
+    }
+  }
+  /// Connects a scripted peer; returns its index.
+  pub fn add_peer(&self, endpoint_uri: &str, room: bool) -> usize {
+    let p = Arc::new(ScriptedPeer {
+      room: std::sync::atomic::AtomicBool::new(room),
+      delivered: std::sync::atomic::AtomicUsize::new(0),
+      changed: tokio::sync::Notify::new(),
+    });
+    let mut peers = self.peers.lock();
+    peers.push(p.clone());
+    self.inner.add_connection(endpoint_uri.to_string(), p);
+    peers.len() - 1
+  }
+  pub fn set_room(&self, idx: usize, room: bool) {
+    let p = self.peers.lock()[idx].clone();
+    p.room.store(room, std::sync::atomic::Ordering::SeqCst);
+    p.changed.notify_waiters();
+  }
+  pub fn delivered(&self, idx: usize) -> usize {
+    self.peers.lock()[idx].delivered.load(std::sync::atomic::Ordering::SeqCst)
+  }
+  pub fn try_route_sync(&self) -> Result<(), ZmqError> {
+    self.inner.try_route_sync(FrameBatch::new()).map_err(|(_, e)| e)
+  }
+  pub async fn route_message(&self, wait_for_peer: bool) -> Result<(), ZmqError> {
+    self.inner.route_message(FrameBatch::new(), wait_for_peer).await.map_err(|(_, e)| e)
+  }
+}
+
 // --- anonymous ingress engine (PULL/SUB receive path) ---------------------------------------------
 
 pub struct VAnonymousIngress(crate::socket::patterns::anonymous_ingress::AnonymousIngressEngine);
